@@ -19,8 +19,10 @@ structure Feat where
   patterns : List String := []
   arrays : Bool := false
   shared : Bool := false
+  formats : List String := []
 
-def Feat.merge (a b : Feat) : Feat := ⟨a.patterns ++ b.patterns, a.arrays || b.arrays, a.shared || b.shared⟩
+def Feat.merge (a b : Feat) : Feat :=
+  ⟨a.patterns ++ b.patterns, a.arrays || b.arrays, a.shared || b.shared, a.formats ++ b.formats⟩
 
 def objKVs (j : Json) : List (String × Json) :=
   match j with | .obj kvs => kvs.toList | _ => []   -- TreeMap: sorted by key
@@ -76,7 +78,8 @@ def feat (sc : Json) : Nat → Json → Feat
   | fuel + 1, s0 =>
     let s := deref sc s0
     let own : Feat := { patterns := (match field? s "pattern" with | some (.str p) => [p] | _ => []),
-                        arrays := getStr s "type" == "array" }
+                        arrays := getStr s "type" == "array" || (strs (getArr s "type")).contains "array",
+                        formats := (match field? s "format" with | some (.str f) => [f] | _ => []) }
     (children s).foldl (fun acc c => acc.merge (feat sc fuel c)) own
 
 def usesRef : Nat → Json → Bool
@@ -173,7 +176,9 @@ def handle (j : Json) : Json :=
       dialect := if getStr c "rx" == "ci" then 1 else 0,
       item := if routed c then indexOf paths (getStr (opOf c) "path") else 0,
       itemParams := if routed c then (itemParamsOf doc (opOf c)).length else 0,
-      ownParams := if routed c then (getArr (opOf c) "params").length else 0 })
+      ownParams := if routed c then (getArr (opOf c) "params").length else 0,
+      registries := !f.formats.isEmpty || (getStr c "k" == "vreq" && routed c && !isNull (opOf c) "body" && !getBool c "exBody") ||
+                    getStr c "k" == "vresp" })
   let cm : CaseM := { ops := ops, g := getNat j "g", per := getNat j "per", sched := getNat j "sched" }
   let out := outcome cm
   let kinds := (ops.map (fun o => kindStr o.kind)).foldl (fun acc k => insertSorted k acc) []
@@ -197,6 +202,14 @@ def handle (j : Json) : Json :=
     (if (getArr doc "ops").any (fun o => usesRef 6 (getD (getD o "body" Json.null) "schema" Json.null) ||
                                         usesRef 6 (getD (getD o "resp" Json.null) "schema" Json.null)) ||
         (objKVs (getD doc "schemas" Json.null)).any (fun (_, q) => usesRef 6 q) then ["doc.sharedRef"] else []) ++
+    -- process-wide registries read by validations
+    (let fs := dedup (feats.flatMap (·.formats))
+     (if fs.isEmpty then [] else ["registry.format"]) ++
+     (if fs.any (fun f => f == "c15fmt" || f == "c15even") then ["registry.format.custom"] else [])) ++
+    (let mts := dedup ((calls.filter (fun c => getStr c "k" == "vreq" && routed c && !isNull (opOf c) "body")).map
+                  (fun c => getStr (getD (opOf c) "body" Json.null) "mt"))
+     mts.map (fun m => s!"registry.bodyDecoder.{m}")) ++
+    (if calls.any (fun c => getStr c "k" == "gen" && (strs (getArr c "opts")).contains "customizer") then ["gen.customizer"] else []) ++
     -- slices of the shared document: path-level parameter lists, and which of them were decoded with spare capacity
     (let vq := calls.filter (fun c => getStr c "k" == "vreq" && routed c && !getBool c "miss")
      let withItem := vq.filter (fun c => !(itemParamsOf doc (opOf c)).isEmpty)
